@@ -166,3 +166,163 @@ Proof.
      repeat (match goal with |- context [?a =? ?b] => destruct (Z.eqb_spec a b); [exfalso; lia|] end; xstep);
      [rewrite (tr_reg_getraw m pb lb R 0 _ d fuel H ltac:(lia) Hp')|rewrite (tr_reg_getraw m pb lb R c _ d fuel H Hc Hp')]; reflexivity).
 Qed.
+
+(* ------------------------------------------------------------------ <ctype.h> on a register name *)
+Definition lowz (c : Z) : Z := if ct_isupper c then c + 32 else c.
+Lemma ct_arg_ok c : 0 <= c < 256 -> ct_arg c = Ok c.
+Proof. intro H. unfold ct_arg. destruct (Z.leb_spec (-1) c); [|lia]. destruct (Z.leb_spec c 255); [|lia]. reflexivity. Qed.
+Lemma builtin_isupper m c : 0 <= c < 256 -> do_builtin_m BIsupper [VInt c] m = Ok (VInt (b2z (ct_isupper c)), m).
+Proof. intro H. cbn [do_builtin_m do_builtin]. rewrite ct_arg_ok by exact H. reflexivity. Qed.
+Lemma builtin_isalpha m c : 0 <= c < 256 -> do_builtin_m BIsalpha [VInt c] m = Ok (VInt (b2z (ct_isalpha c)), m).
+Proof. intro H. cbn [do_builtin_m do_builtin]. rewrite ct_arg_ok by exact H. reflexivity. Qed.
+Lemma builtin_tolower m c : 0 <= c < 256 -> do_builtin_m BTolower [VInt c] m = Ok (VInt (lowz c), m).
+Proof. intro H. cbn [do_builtin_m do_builtin]. rewrite ct_arg_ok by exact H. reflexivity. Qed.
+Lemma lowz_range c : 0 <= c < 256 -> 0 <= lowz c < 256.
+Proof. intro H. unfold lowz, ct_isupper. destruct (Z.leb_spec 65 c); destruct (Z.leb_spec c 90); cbn [andb]; lia. Qed.
+(* the model's ctype (UcDefs, on N) is the C library's (CLite, on Z) *)
+Lemma isupper_N c : 0 <= c -> c_isupper (Z.to_N c) = ct_isupper c.
+Proof.
+  intro H. unfold c_isupper, ct_isupper.
+  destruct (N.leb_spec 65 (Z.to_N c)); destruct (Z.leb_spec 65 c); try lia;
+  destruct (N.leb_spec (Z.to_N c) 90); destruct (Z.leb_spec c 90); try lia; reflexivity.
+Qed.
+Lemma tolower_N c : 0 <= c -> c_tolower (Z.to_N c) = Z.to_N (lowz c).
+Proof. intro H. unfold c_tolower, lowz. rewrite isupper_N by exact H. destruct (ct_isupper c); lia. Qed.
+Lemma isalpha_N c : 0 <= c -> c_isalpha (Z.to_N c) = ct_isalpha c.
+Proof.
+  intro H. unfold c_isalpha, ct_isalpha. rewrite isupper_N by exact H. f_equal. unfold c_islower, ct_islower.
+  destruct (N.leb_spec 97 (Z.to_N c)); destruct (Z.leb_spec 97 c); try lia;
+  destruct (N.leb_spec (Z.to_N c) 122); destruct (Z.leb_spec c 122); try lia; reflexivity.
+Qed.
+
+Lemma builtin_strlen0 m b (s : bytes) : str_at m b s -> nonul s -> do_builtin_m BStrlen [VPtr b 0] m = Ok (VInt (Z.of_nat (length s)), m).
+Proof. intros H Hn. change 0 with (Z.of_nat 0). rewrite (builtin_strlen m b s 0 H Hn) by lia. rewrite Nat.sub_0_r. reflexivity. Qed.
+
+(* ------------------------------------------------------------------ reg_putraw *)
+(* the text in front of s: the old text of the lower-case register when the name is a capital *)
+Definition pre_of (R : RegDefs.regs) (c : Z) : bytes :=
+  if ct_isupper c then match R (Z.to_N (lowz c)) with Some (b, _) => b | None => [] end else [].
+(* the memory after reg_putraw(c, s, ln): a fresh block with the new text, the old block of the register freed,
+   bufs[tolower(c)] and lnmode[tolower(c)] set *)
+Definition free_cell (v : val) (m : mem) : mem := match v with VPtr b0 _ => upd m b0 [] | _ => m end.
+Definition putraw_mem (m : mem) (pb : block) (lb : list Z) (lc : nat) (txt : bytes) (ln : Z) : mem :=
+  upd (upd (free_cell (cellp pb lc) (m ++ [cstr_block (zb txt)])) G_reg__bufs (upd pb lc (VPtr (length m) 0)))
+      G_lnmode (map VInt (upd lb lc ln)).
+
+Definition putraw_e1 : expr := match fn_body cf_reg_putraw with SSeq (SExpr e) _ => e | _ => EConst 0 end.
+Lemma putraw_head call m pb lb R c sp lnv : regs_at m pb lb R -> 0 <= c < 256 ->
+  exists bp, str_at m bp (pre_of R c) /\ nonul (pre_of R c) /\ (bp < length m)%nat /\
+    eval call putraw_e1 (mkst [VInt c; sp; lnv; VUndef; VUndef] m) = Ok (VPtr bp 0, mkst [VInt c; sp; lnv; VPtr bp 0; VUndef] m).
+Proof.
+  intros H Hc. pose proof (ra_bufs _ _ _ _ H) as Hb. pose proof (ra_blen _ _ _ _ H) as Hbl.
+  pose proof (lowz_range c Hc) as Hlc. pose proof (ra_lit _ _ _ _ H) as Hlit.
+  assert (Hl0 : (G_lit__0 < length m)%nat) by (apply nth_error_Some; unfold str_at in Hlit; congruence).
+  unfold putraw_e1. cbn [fn_body cf_reg_putraw]. xcbn. rewrite (builtin_isupper m c Hc). xcbn. unfold pre_of.
+  destruct (ct_isupper c) eqn:Eu; cbn [b2z]; xstep.
+  - rewrite (builtin_tolower m c Hc). xcbn. replace (0 + 1 * lowz c) with (lowz c) by lia.
+    rewrite (load_cellp m pb _ Hb Hbl Hlc). xcbn.
+    pose proof (ra_cell _ _ _ _ H (Z.to_nat (lowz c)) ltac:(lia)) as Hr. rewrite Z_nat_N, Z2Nat.id in Hr by lia.
+    destruct (R (Z.to_N (lowz c))) as [[t l]|]; cbn [reg_cell] in Hr.
+    + destruct Hr as (b & E & Hh & Hs & Hn & _). rewrite E. xcbn.
+      rewrite (builtin_tolower m c Hc). xcbn. replace (0 + 1 * lowz c) with (lowz c) by lia.
+      rewrite (load_cellp m pb _ Hb Hbl Hlc). rewrite E. xcbn.
+      exists b. repeat split; try assumption. apply nth_error_Some. unfold str_at in Hs. congruence.
+    + rewrite Hr. xcbn. exists G_lit__0. repeat split; try assumption. constructor.
+  - exists G_lit__0. repeat split; try assumption. constructor.
+Qed.
+
+Theorem tr_reg_putraw m pb lb R c bs (t : bytes) (o : nat) ln d fuel :
+  regs_at m pb lb R -> 0 <= c < 256 -> str_at m bs t -> nonul t -> (o <= length t)%nat ->
+  bs <> G_reg__bufs -> bs <> G_lnmode -> int_ok ln -> str_fits (pre_of R c ++ skipn o t) ->
+  callf cprog fuel (S d) F_reg_putraw [VInt c; VPtr bs (Z.of_nat o); VInt ln] m
+  = Ok (VUndef, putraw_mem m pb lb (Z.to_nat (lowz c)) (pre_of R c ++ skipn o t) ln).
+Proof.
+  intros H Hc Hs Hn Ho Hb1 Hb2 Hln Hfit.
+  pose proof (ra_bufs _ _ _ _ H) as Hb. pose proof (ra_blen _ _ _ _ H) as Hbl.
+  pose proof (lowz_range c Hc) as Hlc. destruct globals_small as (G0 & G1 & G2 & G3 & G4 & G5).
+  set (s := skipn o t) in *. set (pre := pre_of R c) in *.
+  assert (Hsn : nonul s) by (apply Forall_skipn'; exact Hn).
+  assert (Hbs : (bs < length m)%nat) by (apply nth_error_Some; unfold str_at in Hs; congruence).
+  enter F_reg_putraw cf_reg_putraw. rewrite exec_seq, exec_expr.
+  match goal with |- context [eval ?call ?e ?st] =>
+    destruct (putraw_head call m pb lb R c (VPtr bs (Z.of_nat o)) (VInt ln) H Hc) as (bp & Hbp & Hpn & Hbpl & E);
+    change e with putraw_e1; rewrite E; clear E end.
+  fold pre in Hbp, Hpn.
+  xstep. rewrite (builtin_strlen0 m bp pre Hbp Hpn). xstep.
+  rewrite (builtin_strlen m bs t o Hs Hn Ho). xstep.
+  assert (Hsl : length s = (length t - o)%nat) by (unfold s; apply skipn_length). rewrite <- Hsl.
+  assert (Hfit' : Z.of_nat (length pre) + Z.of_nat (length s) < 9223372036854775807)
+    by (unfold str_fits in Hfit; rewrite app_length in Hfit; lia).
+  rewrite chk_U64 by lia. xstep. change (wrap U64 1) with 1. rewrite chk_U64 by lia. xstep.
+  rewrite malloc_ok by lia. xstep.
+  replace (Z.to_nat (Z.of_nat (length pre) + Z.of_nat (length s) + 1)) with (S (length pre + length s)) by lia.
+  set (nb := length m). set (blk0 := repeat VUndef (S (length pre + length s))). set (m1 := m ++ [blk0]).
+  assert (Hnb : nth_error m1 nb = Some blk0) by (apply nth_error_app_new).
+  assert (Hbp1 : str_at m1 bp pre) by (unfold str_at, m1; rewrite nth_error_app_old by exact Hbpl; exact Hbp).
+  change (VPtr bp 0) with (VPtr bp (Z.of_nat 0)).
+  rewrite (builtin_strcpy m1 nb blk0 bp pre 0 Hnb Hbp1 Hpn) by (try (unfold blk0; rewrite repeat_length); lia). xstep.
+  cbn [skipn]. unfold m1 at 1. rewrite (upd_app_new m blk0).
+  set (rest := skipn (S (length pre)) blk0).
+  assert (Hrest : length rest = length s) by (unfold rest, blk0; rewrite skipn_length, repeat_length; lia).
+  assert (Eb1 : put_cells blk0 0 (cstr_block (zb pre)) = cstr_block (zb pre) ++ rest)
+    by (rewrite put_cells_0, cstr_block_length; reflexivity).
+  match goal with |- context [do_builtin_m BStrcat _ ?mm] => set (m2 := mm) end.
+  assert (Hnb2 : nth_error m2 nb = Some (cstr_block (zb pre) ++ rest)) by (unfold m2, nb; rewrite nth_error_app_new, Eb1; reflexivity).
+  assert (Hs2 : str_at m2 bs t) by (unfold str_at, m2; rewrite nth_error_app_old by exact Hbs; exact Hs).
+  rewrite (builtin_strcat m2 nb pre rest bs t o Hnb2 Hs2 Hn Hpn Ho) by lia. xstep.
+  fold s. rewrite <- Eb1. unfold blk0 at 1. rewrite cat_block. unfold m2. rewrite (upd_app_new m).
+  match goal with |- context [do_builtin_m BTolower _ ?mm] => set (m3 := mm) end.
+  rewrite (builtin_tolower _ c Hc). xstep. replace (0 + 1 * lowz c) with (lowz c) by lia.
+  assert (Hb3 : nth_error m3 G_reg__bufs = Some pb) by (unfold m3; rewrite nth_error_app_old by (apply nth_error_Some; congruence); exact Hb).
+  rewrite (load_cellp m3 pb _ Hb3 Hbl Hlc). xstep.
+  set (lc := Z.to_nat (lowz c)) in *.
+  assert (Hlnm : (G_lnmode < length m)%nat) by (apply nth_error_Some; pose proof (ra_ln _ _ _ _ H) as X; unfold int_arr_at in X; congruence).
+  assert (Hfree : exists m4, m4 = free_cell (cellp pb lc) m3 /\ do_builtin_m BFree [cellp pb lc] m3 = Ok (VUndef, m4) /\ (cellp pb lc = VInt 0 \/ exists b0, cellp pb lc = VPtr b0 0) /\ nth_error m4 G_reg__bufs = Some pb /\ int_arr_at m4 G_lnmode lb).
+  { pose proof (ra_cell _ _ _ _ H lc ltac:(unfold lc; lia)) as Hr.
+    destruct (R (N.of_nat lc)) as [[t0 l0]|]; cbn [reg_cell] in Hr.
+    - destruct Hr as (b0 & E & Hh & Hs0 & _). rewrite E. cbn [free_cell]. eexists. split; [reflexivity|].
+      assert (Hb0 : (b0 < length m)%nat) by (apply nth_error_Some; unfold str_at in Hs0; congruence).
+      assert (Hb0' : nth_error m3 b0 = Some (cstr_block (zb t0))) by (unfold m3; rewrite nth_error_app_old by exact Hb0; exact Hs0).
+      assert (Hl3 : (b0 < length m3)%nat) by (apply nth_error_Some; congruence).
+      unfold heap_blk in Hh.
+      split; [apply (free_ok m3 b0 _ Hb0'); unfold cstr_block; destruct (map VInt (zb t0)); discriminate|].
+      split; [right; exists b0; reflexivity|].
+      split; [rewrite mem_upd_other by (try exact Hl3; lia); exact Hb3|].
+      unfold int_arr_at. rewrite mem_upd_other by (try exact Hl3; lia). unfold m3. rewrite nth_error_app_old by lia.
+      exact (ra_ln _ _ _ _ H).
+    - rewrite Hr. cbn [free_cell]. eexists. split; [reflexivity|]. split; [reflexivity|]. split; [left; reflexivity|].
+      split; [exact Hb3|]. unfold int_arr_at, m3. rewrite nth_error_app_old by lia. exact (ra_ln _ _ _ _ H). }
+  destruct Hfree as (m4 & Em4 & Hfr & Hshape & Hb4 & Hl4).
+  assert (Ecell : forall (st : state), (match cellp pb lc with VUndef => Err EUndef | VInt (Z.pos _) | VInt (Z.neg _) => Err EType
+           | _ => Ok (cellp pb lc, st) end) = Ok (cellp pb lc, st))
+    by (intro st; destruct Hshape as [E|[b0 E]]; rewrite E; reflexivity).
+  rewrite Ecell. xstep. rewrite Hfr. xstep.
+  rewrite (builtin_tolower _ c Hc). xstep. replace (0 + 1 * lowz c) with (lowz c) by lia.
+  rewrite (store_ok m4 G_reg__bufs pb) by (try exact Hb4; lia). xstep.
+  rewrite (builtin_tolower _ c Hc). xstep. replace (0 + 1 * lowz c) with (lowz c) by lia.
+  rewrite (wrap_int_ok ln Hln).
+  assert (Hb4l : (G_reg__bufs < length m4)%nat) by (apply nth_error_Some; congruence).
+  assert (Hl5 : int_arr_at (upd m4 G_reg__bufs (upd pb (Z.to_nat (lowz c)) (VPtr nb 0))) G_lnmode lb)
+    by (unfold int_arr_at; rewrite mem_upd_other by (try exact Hb4l; congruence); exact Hl4).
+  rewrite (store_int_arr _ G_lnmode lb (lowz c) ln Hl5) by (rewrite (ra_llen _ _ _ _ H); lia). xstep.
+  unfold putraw_mem. fold m3. rewrite <- Em4. reflexivity.
+Qed.
+
+(* names outside 0..255 (and not EOF): isupper(c) is undefined behaviour in C, the error ECtype here; reg_getraw reads outside
+   the two tables: the error EOob.  (ex.c passes REG(s) = an unsigned char; vi.c passes the key it read, an unsigned char.) *)
+Theorem tr_reg_putraw_badname m c sp ln d fuel : (c < -1 \/ 255 < c) -> sp <> VUndef ->
+  callf cprog fuel (S d) F_reg_putraw [VInt c; sp; VInt ln] m = Err ECtype.
+Proof.
+  intros Hc Hsp. enter F_reg_putraw cf_reg_putraw. xstep. cbn [do_builtin_m do_builtin]. unfold ct_arg.
+  replace ((-1 <=? c) && (c <=? 255)) with false by (destruct (Z.leb_spec (-1) c); destruct (Z.leb_spec c 255); cbn; lia).
+  reflexivity.
+Qed.
+Theorem tr_reg_getraw_badname m pb lb R c d fuel : regs_at m pb lb R -> (c < 0 \/ 256 <= c) ->
+  callf cprog fuel (S d) F_reg_getraw [VInt c; VInt 0] m = Err EOob.
+Proof.
+  intros H Hc. enter F_reg_getraw cf_reg_getraw. xstep. cbn [ptr_cmp bind]. xstep.
+  replace (0 + 1 * c) with c by lia. unfold load. rewrite (ra_bufs _ _ _ _ H).
+  destruct (Z.ltb_spec c 0); [reflexivity|].
+  replace (nth_error pb (Z.to_nat c)) with (@None val); [reflexivity|]. symmetry. apply nth_error_None.
+  rewrite (ra_blen _ _ _ _ H). lia.
+Qed.
